@@ -526,6 +526,11 @@ func (e *Engine) call(caller *frame, pos token.Pos, fn Value, args []Value) Valu
 	panic(engineError{fmt.Sprintf("cannot call %T", fn)})
 }
 
+// notHandled is returned by an intrinsic that wants the real SSA body to run instead.
+type notHandledT struct{}
+
+var notHandled = &notHandledT{}
+
 // IntrinsicFn lets the engine hand a native function around as a func value.
 type IntrinsicFn struct {
 	name string
@@ -541,8 +546,11 @@ func (e *Engine) callSSA(caller *frame, fn *ssa.Function, args []Value, env []Va
 		}
 	}
 	if in := e.findIntrinsic(fn, name); in != nil {
-		e.noteStub(name)
-		return in(e, caller, fn, args)
+		if r := in(e, caller, fn, args); r != Value(notHandled) {
+			e.noteStub(name)
+			return r
+		}
+		// the intrinsic declined (e.g. a *rand.Rand over a harness-supplied source): run the real body
 	}
 	if !e.mayExecute(fn) {
 		e.unsupported("call to %s is not modelled", name)
@@ -657,6 +665,7 @@ var execPkgs = map[string]bool{
 	"io":                            true,
 	"math":                          true,
 	"math/bits":                     true,
+	"math/rand":                     true,
 	"fmt":                           false,
 	"github.com/antlr4-go/antlr/v4": true,
 }
